@@ -89,6 +89,55 @@ func spaceD(n, mMin, m int, bothOrders bool) func(emit func(Input)) {
 	}
 }
 
+// spaceDS: every SET of mMin..m edges over the pairs u<v of n topologically labelled nodes that forms one connected
+// graph on all n nodes (simple DAGs: the dense end of the input space, where the simplex pivots several times).
+func spaceDS(n, mMin, m int) func(emit func(Input)) {
+	return func(emit func(Input)) {
+		var pairs [][2]int
+		for u := 0; u < n; u++ {
+			for v := u + 1; v < n; v++ {
+				pairs = append(pairs, [2]int{u, v})
+			}
+		}
+		par := make([]int, n)
+		var find func(a int) int
+		find = func(a int) int {
+			for par[a] != a {
+				a = par[a]
+			}
+			return a
+		}
+		for d := mMin; d <= m; d++ {
+			cur := make([]int, 0, 2*d)
+			var rec func(start, left int)
+			rec = func(start, left int) {
+				if left == 0 {
+					for i := range par {
+						par[i] = i
+					}
+					comps := n
+					for i := 0; i < len(cur); i += 2 {
+						if a, b := find(cur[i]), find(cur[i+1]); a != b {
+							par[a] = b
+							comps--
+						}
+					}
+					if comps == 1 {
+						emit(relabel(cur))
+					}
+					return
+				}
+				for i := start; i+left <= len(pairs); i++ {
+					cur = append(cur, pairs[i][0], pairs[i][1])
+					rec(i+1, left-1)
+					cur = cur[:len(cur)-2]
+				}
+			}
+			rec(0, d)
+		}
+	}
+}
+
 // relabel maps node numbers to first-occurrence order (canonical form).
 func relabel(e []int) Input {
 	mp := map[int]int{}
@@ -303,11 +352,112 @@ func famStar(k int, out bool) Input {
 	return relabel(e)
 }
 
+// thetaFamilies: two (three) internally disjoint directed paths from a top node T to a bottom node B with 1..maxLen edges
+// each - the inner nodes of the shorter path have slack, which is what vertical balancing, long-edge splitting and the
+// tie-breaks of the layerer act on - optionally with one extra node attached by two edges (as a source, as a sink, or
+// in between, over every pair of existing nodes), each in 10 edge-list orders (5 stride permutations and their reversals).
+func thetaFamilies(maxLen int, three bool) []Input {
+	var out []Input
+	seen := map[string]bool{}
+	add := func(e []int) {
+		m := len(e) / 2
+		for _, st := range []int{1, 2, 3, 5, 7} {
+			idx := make([]int, m)
+			for i := range idx {
+				idx[i] = i
+			}
+			sort.SliceStable(idx, func(a, b int) bool { return (idx[a]*st)%m < (idx[b]*st)%m })
+			for rev := 0; rev < 2; rev++ {
+				p := make([]int, 0, 2*m)
+				for j := range idx {
+					i := idx[j]
+					if rev == 1 {
+						i = idx[m-1-j]
+					}
+					p = append(p, e[2*i], e[2*i+1])
+				}
+				in := relabel(p)
+				k := fmt.Sprint(in.E)
+				if !seen[k] {
+					seen[k] = true
+					out = append(out, in)
+				}
+			}
+		}
+	}
+	var lens [][]int
+	for a := 1; a <= maxLen; a++ {
+		for b := 1; b <= maxLen; b++ {
+			if !three {
+				lens = append(lens, []int{a, b})
+				continue
+			}
+			for c := 1; c <= maxLen; c++ {
+				lens = append(lens, []int{a, b, c})
+			}
+		}
+	}
+	for _, ls := range lens {
+		var e []int
+		n := 2 // 0 = T, 1 = B
+		for _, l := range ls {
+			prev := 0
+			for j := 1; j < l; j++ {
+				e = append(e, prev, n)
+				prev = n
+				n++
+			}
+			e = append(e, prev, 1)
+		}
+		add(e)
+		x := n
+		for u := 0; u < n; u++ {
+			for v := 0; v < n; v++ {
+				if u == v {
+					continue
+				}
+				add(append(append([]int(nil), e...), u, x, x, v))
+				if u < v {
+					add(append(append([]int(nil), e...), x, u, x, v))
+					add(append(append([]int(nil), e...), u, x, v, x))
+				}
+			}
+		}
+	}
+	return out
+}
+
 func spaceList(ins []Input) func(emit func(Input)) {
 	return func(emit func(Input)) {
 		for _, in := range ins {
 			emit(in)
 		}
+	}
+}
+
+// spaceBothOrders presents every input of sp as it is and with its edge list reversed.
+func spaceBothOrders(sp func(emit func(Input))) func(emit func(Input)) {
+	return func(emit func(Input)) {
+		sp(func(in Input) {
+			emit(in)
+			if in.M() > 1 {
+				rev := make([]int, 0, len(in.E))
+				for i := len(in.E) - 2; i >= 0; i -= 2 {
+					rev = append(rev, in.E[i], in.E[i+1])
+				}
+				emit(relabel(rev))
+			}
+		})
+	}
+}
+
+func spaceFilter(sp func(emit func(Input)), keep func(in Input) bool) func(emit func(Input)) {
+	return func(emit func(Input)) {
+		sp(func(in Input) {
+			if keep(in) {
+				emit(in)
+			}
+		})
 	}
 }
 
